@@ -182,6 +182,8 @@ fn add_types_recursive(
     module: &naga::Module,
     ty: Handle<Type>,
 ) {
+    #[cfg(wgsl_to_wgpu_verif)]
+    crate::verif_hooks::tick_type();
     types.insert(ty);
 
     match &module.types[ty].inner {
